@@ -547,3 +547,794 @@ Section L003.
     apply check_bounded; [lia|]. exact (pass_bounded mx (split_nl t) 0%nat).
   Qed.
 End L003.
+
+(* ------------------------------------------------------------------------------------------------ *)
+(* well-formed characters: what [decode] produces.  An ASCII byte occurs in the source bytes of a
+   character only as that whole character (UTF-8 is self-synchronising). *)
+
+Definition wfc (c : ch) : Prop :=
+  raw c <> [] /\
+  (forall b, In b (raw c) -> b < 128 -> raw c = [b] /\ cp c = b) /\
+  (cp c < 128 -> raw c = [cp c]).
+Definition wft (t : list ch) : Prop := forall c, In c t -> wfc c.
+
+Lemma wfc_asc : forall b, wfc (asc b).
+Proof.
+  intro b. unfold wfc, asc. cbn [raw cp]. split; [discriminate|]. split.
+  - intros x [Hx|[]] _. subst. split; reflexivity.
+  - intros _. reflexivity.
+Qed.
+
+Lemma wfc_high : forall p r v, r <> [] -> (forall b, In b r -> 128 <= b) -> 128 <= p -> wfc (mkch p r v).
+Proof.
+  intros p r v Hr Hb Hp. unfold wfc. cbn [raw cp]. split; [exact Hr|]. split.
+  - intros b Hin Hlt. specialize (Hb b Hin). lia.
+  - intro Hlt. lia.
+Qed.
+
+Lemma between_spec : forall lo x hi, between lo x hi = true -> lo <= x /\ x <= hi.
+Proof. intros lo x hi H. unfold between in H. apply andb_prop in H. destruct H as [H1 H2]. apply N.leb_le in H1. apply N.leb_le in H2. split; assumption. Qed.
+Lemma cont_spec : forall b, cont b = true -> 128 <= b /\ b <= 191.
+Proof. intros b H. unfold cont in H. apply andb_prop in H. destruct H as [H1 H2]. apply N.leb_le in H1. apply N.leb_le in H2. split; assumption. Qed.
+
+Lemma dec1_wf : forall b0 t, wfc (dec1 (b0 :: t)).
+Proof.
+  intros b0 t. cbn [dec1].
+  destruct (b0 <? 128) eqn:E0; [apply wfc_asc|]. apply N.ltb_ge in E0.
+  assert (Hbad : wfc (badc b0)).
+  { apply wfc_high; [discriminate| |lia]. intros b [Hb|[]]. subst. exact E0. }
+  destruct (between 194 b0 223) eqn:E1.
+  { apply between_spec in E1. destruct t as [|b1 t]; [exact Hbad|]. destruct (cont b1) eqn:C1; [|exact Hbad].
+    apply cont_spec in C1. apply wfc_high; [discriminate| |lia].
+    intros b [Hb|[Hb|[]]]; subst; lia. }
+  destruct (between 224 b0 239) eqn:E2.
+  { apply between_spec in E2. destruct t as [|b1 [|b2 t]]; try exact Hbad.
+    destruct (between (if b0 =? 224 then 160 else 128) b1 (if b0 =? 237 then 159 else 191) && cont b2) eqn:C; [|exact Hbad].
+    apply andb_prop in C. destruct C as [C1 C2]. apply between_spec in C1. apply cont_spec in C2.
+    apply wfc_high; [discriminate| |].
+    - intros b [Hb|[Hb|[Hb|[]]]]; subst; try lia. destruct (b0 =? 224); lia.
+    - destruct (b0 =? 224) eqn:Eb; [apply N.eqb_eq in Eb; subst; lia|apply N.eqb_neq in Eb; lia]. }
+  destruct (between 240 b0 244) eqn:E3.
+  { apply between_spec in E3. destruct t as [|b1 [|b2 [|b3 t]]]; try exact Hbad.
+    destruct (between (if b0 =? 240 then 144 else 128) b1 (if b0 =? 244 then 143 else 191) && cont b2 && cont b3) eqn:C; [|exact Hbad].
+    apply andb_prop in C. destruct C as [C C3]. apply andb_prop in C. destruct C as [C1 C2].
+    apply between_spec in C1. apply cont_spec in C2. apply cont_spec in C3.
+    apply wfc_high; [discriminate| |].
+    - intros b [Hb|[Hb|[Hb|[Hb|[]]]]]; subst; try lia. destruct (b0 =? 240); lia.
+    - destruct (b0 =? 240) eqn:Eb; [apply N.eqb_eq in Eb; subst; lia|apply N.eqb_neq in Eb; lia]. }
+  exact Hbad.
+Qed.
+
+Lemma decode_go_wf : forall s skip, wft (decode_go skip s).
+Proof.
+  induction s as [|b t IH]; intros skip c Hc; [destruct Hc|].
+  cbn [decode_go] in Hc. destruct skip as [|k].
+  - destruct Hc as [Hc|Hc]; [subst; apply dec1_wf|eapply IH; exact Hc].
+  - eapply IH; exact Hc.
+Qed.
+
+Theorem decode_wf : forall s, wft (decode s).
+Proof. intro s. apply decode_go_wf. Qed.
+
+(* ------------------------------------------------------------------------------------------------ *)
+(* lines of a text *)
+
+Lemma split_incl : forall t l c, In l (split_nl t) -> In c l -> In c t.
+Proof.
+  induction t as [|d t IH]; intros l c Hl Hc.
+  - cbn in Hl. destruct Hl as [Hl|[]]. subst. destruct Hc.
+  - destruct (is_nl d) eqn:E.
+    + cbn [split_nl] in Hl. rewrite E in Hl. destruct Hl as [Hl|Hl]; [subst; destruct Hc|right; eapply IH; eassumption].
+    + destruct (split_cons_other d t E) as (h & r & E1 & E2). rewrite E2 in Hl. destruct Hl as [Hl|Hl].
+      * subst. destruct Hc as [Hc|Hc]; [left; exact Hc|right]. eapply IH; [rewrite E1; left; reflexivity|exact Hc].
+      * right. eapply IH; [rewrite E1; right; exact Hl|exact Hc].
+Qed.
+
+Lemma on_lines_in : forall f ls k v, In v (on_lines f k ls) <->
+  exists i l, nth_error ls i = Some l /\ In v (f (k + i)%nat l).
+Proof.
+  intros f. induction ls as [|l r IH]; intros k v.
+  - cbn. split; [intros []|]. intros (i & l & H & _). destruct i; discriminate.
+  - cbn [on_lines]. rewrite in_app_iff. rewrite IH. split.
+    + intros [H|(i & l' & H1 & H2)].
+      * exists 0%nat, l. split; [reflexivity|]. rewrite Nat.add_0_r. exact H.
+      * exists (S i), l'. split; [exact H1|]. replace (k + S i)%nat with (S k + i)%nat by lia. exact H2.
+    + intros (i & l' & H1 & H2). destruct i as [|i].
+      * cbn in H1. inversion H1; subst. left. rewrite Nat.add_0_r in H2. exact H2.
+      * right. exists i, l'. split; [exact H1|]. replace (S k + i)%nat with (k + S i)%nat by lia. exact H2.
+Qed.
+
+Lemma on_lines_nil : forall f ls k, (forall n l, In l ls -> f n l = []) -> on_lines f k ls = [].
+Proof.
+  intros f. induction ls as [|l r IH]; intros k H; [reflexivity|]. cbn [on_lines].
+  rewrite H by (left; reflexivity). cbn [app]. apply IH. intros n l' Hl. apply H. right. exact Hl.
+Qed.
+
+(* last character / last byte *)
+Fixpoint lastc {A} (l : list A) : option A :=
+  match l with
+  | [] => None
+  | [c] => Some c
+  | _ :: t => lastc t
+  end.
+
+Lemma lastc_cons : forall {A} (c : A) t, t <> [] -> lastc (c :: t) = lastc t.
+Proof. intros A c [|d t] H; [contradiction|reflexivity]. Qed.
+
+Lemma last_byte_is_lastc : forall l, last_byte l = lastc l.
+Proof. induction l as [|b [|c t] IH]; [reflexivity|reflexivity|]. change (last_byte (c :: t) = lastc (c :: t)). exact IH. Qed.
+
+Lemma lastc_app : forall {A} (a b : list A), b <> [] -> lastc (a ++ b) = lastc b.
+Proof.
+  intros A. induction a as [|c a IH]; intros b H; [reflexivity|].
+  change ((c :: a) ++ b) with (c :: (a ++ b)). rewrite lastc_cons; [apply IH; exact H|].
+  destruct a; [exact H|discriminate].
+Qed.
+
+Lemma lastc_trim_r : forall {A} (p : A -> bool) l c, lastc (trim_r p l) = Some c -> p c = false.
+Proof.
+  intros A p. induction l as [|d t IH]; intros c H; [discriminate|].
+  cbn [trim_r] in H. destruct (trim_r p t) as [|e t'] eqn:E.
+  - destruct (p d) eqn:Ed; [discriminate|]. inversion H; subst. exact Ed.
+  - rewrite lastc_cons in H by discriminate. apply IH. exact H.
+Qed.
+
+Lemma lastc_in : forall {A} (l : list A) c, lastc l = Some c -> In c l.
+Proof.
+  intros A. induction l as [|d [|e t] IH]; intros c H; [discriminate|inversion H; left; reflexivity|].
+  right. apply IH. exact H.
+Qed.
+
+Lemma lastc_encode : forall l c, wft l -> lastc l = Some c -> lastc (encode l) = lastc (raw c).
+Proof.
+  induction l as [|d t IH]; intros c Hw H; [discriminate|].
+  assert (Hd : wfc d) by (apply Hw; left; reflexivity).
+  assert (Ht : wft t) by (intros x Hx; apply Hw; right; exact Hx).
+  destruct t as [|e t].
+  - inversion H; subst. unfold encode. cbn. rewrite app_nil_r. reflexivity.
+  - rewrite lastc_cons in H by discriminate. unfold encode. cbn [flat_map].
+    rewrite lastc_app.
+    + apply (IH c Ht H).
+    + assert (He : wfc e) by (apply Ht; left; reflexivity). destruct He as (He & _).
+      cbn [flat_map]. destruct (raw e); [contradiction|discriminate].
+Qed.
+
+Lemma wfc_last_blank : forall c, wfc c -> is_blank c = true <-> exists b, lastc (raw c) = Some b /\ (b = 32 \/ b = 9).
+Proof.
+  intros c (Hne & Hb & Hc). unfold is_blank, is_sp, is_tab. split.
+  - intro H. apply orb_prop in H.
+    assert (Hlt : cp c < 128) by (destruct H as [H|H]; apply N.eqb_eq in H; lia).
+    rewrite (Hc Hlt). cbn. exists (cp c). split; [reflexivity|]. destruct H as [H|H]; apply N.eqb_eq in H; auto.
+  - intros (b & Hl & Hv). apply lastc_in in Hl.
+    assert (Hlt : b < 128) by (destruct Hv; lia). destruct (Hb b Hl Hlt) as (_ & E). rewrite E.
+    destruct Hv; subst; reflexivity.
+Qed.
+
+(* ------------------------------------------------------------------------------------------------ *)
+(* L001: exact flagging, re-lint *)
+
+Definition ends_blank (l : list ch) : Prop := exists c, lastc l = Some c /\ is_blank c = true.
+
+Lemma l001_flag_spec : forall l, wft l -> l001_flag l = true <-> ends_blank l.
+Proof.
+  intros l Hw. unfold l001_flag, ends_blank. rewrite last_byte_is_lastc. split.
+  - intro H. destruct (lastc (encode l)) as [b|] eqn:E; [|discriminate].
+    destruct (lastc l) as [c|] eqn:Ec.
+    + exists c. split; [reflexivity|]. rewrite (lastc_encode l c Hw Ec) in E.
+      apply wfc_last_blank; [apply Hw; apply lastc_in; exact Ec|]. exists b. split; [exact E|].
+      apply orb_prop in H. destruct H as [H|H]; apply N.eqb_eq in H; auto.
+    + destruct l as [|d t]; [discriminate|]. exfalso. clear -Ec. revert d Ec. induction t as [|e t IH]; intros d Ec; [discriminate|].
+      rewrite lastc_cons in Ec by discriminate. eapply IH. exact Ec.
+  - intros (c & Ec & Hb). rewrite (lastc_encode l c Hw Ec).
+    apply wfc_last_blank in Hb; [|apply Hw; apply lastc_in; exact Ec]. destruct Hb as (b & Hl & Hv). rewrite Hl.
+    destruct Hv; subst; reflexivity.
+Qed.
+
+Lemma wft_line : forall t l, wft t -> In l (split_nl t) -> wft l.
+Proof. intros t l Hw Hl c Hc. apply Hw. eapply split_incl; eassumption. Qed.
+
+Lemma wft_trim_r : forall p l, wft l -> wft (trim_r p l).
+Proof. intros p l Hw c Hc. apply Hw. eapply trim_r_incl. exact Hc. Qed.
+
+Lemma l001_fix_clears : forall t, wft t -> l001_check (l001_fix t) = [].
+Proof.
+  intros t Hw. unfold l001_check. rewrite l001_fix_per_line. rewrite split_per_line by exact l001_line_keeps.
+  apply on_lines_nil. intros n l Hl. apply in_map_iff in Hl. destruct Hl as (l0 & E & Hl0). subst.
+  unfold l001_check_line. destruct (l001_flag (l001_fix_line l0)) eqn:F; [|reflexivity]. exfalso.
+  apply l001_flag_spec in F; [|apply wft_trim_r; eapply wft_line; eassumption].
+  destruct F as (c & Ec & Hb). unfold l001_fix_line in Ec. apply lastc_trim_r in Ec. congruence.
+Qed.
+
+(* a line is flagged exactly when it ends in a space or a tab; the column is the first trailing blank *)
+Lemma l001_check_exact : forall t n col, wft t ->
+  In (n, col) (l001_check t) <->
+  exists l, nth_error (split_nl t) (n - 1) = Some l /\ (1 <= n)%nat /\ ends_blank l /\ col = S (blen (trim_r is_blank l)).
+Proof.
+  intros t n col Hw. unfold l001_check. rewrite on_lines_in. split.
+  - intros (i & l & Hn & Hin). unfold l001_check_line in Hin. destruct (l001_flag l) eqn:F; [|destruct Hin].
+    destruct Hin as [Hin|[]]. inversion Hin; subst. exists l. replace (S i - 1)%nat with i by lia.
+    split; [exact Hn|]. split; [lia|]. split; [|reflexivity].
+    apply l001_flag_spec; [|exact F]. eapply wft_line; [exact Hw|]. eapply nth_error_In. exact Hn.
+  - intros (l & Hn & H1 & He & Hc). exists (n - 1)%nat, l. split; [exact Hn|].
+    unfold l001_check_line. assert (F : l001_flag l = true).
+    { apply l001_flag_spec; [|exact He]. eapply wft_line; [exact Hw|]. eapply nth_error_In. exact Hn. }
+    rewrite F. left. subst col. replace (1 + (n - 1))%nat with n by lia. reflexivity.
+Qed.
+
+Lemma blen_cons : forall c t, blen (c :: t) = (width c + blen t)%nat.
+Proof. reflexivity. Qed.
+
+Lemma blen_trim_r_le : forall p l, (blen (trim_r p l) <= blen l)%nat.
+Proof.
+  intros p. induction l as [|c t IH]; [cbn; lia|]. cbn [trim_r]. destruct (trim_r p t) as [|a r] eqn:E.
+  - destruct (p c); rewrite ?blen_cons; cbn [blen fold_right]; lia.
+  - rewrite (blen_cons c (a :: r)), (blen_cons c t). lia.
+Qed.
+
+Lemma trim_r_cons : forall {A} (p : A -> bool) c t,
+  trim_r p (c :: t) = match trim_r p t with [] => if p c then [] else [c] | t' => c :: t' end.
+Proof. reflexivity. Qed.
+
+Lemma blen_trim_r_lt : forall l, wft l -> ends_blank l -> (blen (trim_r is_blank l) < blen l)%nat.
+Proof.
+  induction l as [|c t IH]; intros Hw (d & Hd & Hb); [discriminate|].
+  assert (Hc : wfc c) by (apply Hw; left; reflexivity).
+  assert (Ht : wft t) by (intros x Hx; apply Hw; right; exact Hx).
+  destruct t as [|e t].
+  - inversion Hd; subst. cbn [trim_r]. rewrite Hb. destruct Hc as (Hne & _). rewrite blen_cons. unfold width.
+    destruct (raw d); [contradiction|cbn [length blen fold_right]; lia].
+  - rewrite lastc_cons in Hd by discriminate.
+    assert (IH' := IH Ht (ex_intro _ d (conj Hd Hb))).
+    rewrite (trim_r_cons is_blank c (e :: t)). destruct (trim_r is_blank (e :: t)) as [|a r] eqn:E.
+    + rewrite (blen_cons c (e :: t)). destruct (is_blank c); [|rewrite blen_cons]; cbn [blen fold_right] in *; lia.
+    + rewrite (blen_cons c (a :: r)), (blen_cons c (e :: t)). lia.
+Qed.
+
+(* the reported column exists in the flagged line *)
+Lemma l001_location : forall t n col, wft t -> In (n, col) (l001_check t) ->
+  exists l, nth_error (split_nl t) (n - 1) = Some l /\ (1 <= n <= length (split_nl t))%nat /\ (1 <= col <= blen l)%nat.
+Proof.
+  intros t n col Hw H. apply l001_check_exact in H; [|exact Hw]. destruct H as (l & Hn & H1 & He & Hc).
+  exists l. split; [exact Hn|]. split.
+  - split; [exact H1|]. assert (n - 1 < length (split_nl t))%nat by (apply nth_error_Some; congruence). lia.
+  - subst. assert (Hl : wft l) by (eapply wft_line; [exact Hw|eapply nth_error_In; exact Hn]).
+    pose proof (blen_trim_r_lt l Hl He). lia.
+Qed.
+
+(* ------------------------------------------------------------------------------------------------ *)
+(* L007 *)
+
+Section L007.
+  Variables is_letter is_digit : N -> bool.
+  Variable upper_ascii : N -> option N.
+  Variable keywords : list (list N).
+
+  (* facts about the tables, decided on the regenerated tables in Inst_C17: the upper-case image of a rune
+     is a letter, is not a quote character, and is its own upper-case image *)
+  Hypothesis up_letter : forall x u, upper_ascii x = Some u -> is_letter u = true.
+  Hypothesis up_noquote : forall x u, upper_ascii x = Some u -> u <> 39 /\ u <> 34 /\ u <> 10.
+  Hypothesis up_idem : forall x u, upper_ascii x = Some u -> upper_ascii u = Some u.
+
+  Notation word_start := (word_start is_letter).
+  Notation word_char := (word_char is_letter is_digit).
+  Notation kw_of := (kw_of upper_ascii keywords).
+  Notation conv_word := (conv_word upper_ascii keywords).
+  Notation scan := (l007_scan is_letter is_digit upper_ascii keywords).
+  Notation sN := (scan None None).
+  Notation sQ k := (scan (Some k) None).
+
+  Definition wc (c : ch) : bool := negb (is_quote c) && word_char c.
+
+  Lemma word_start_wr : forall c, word_start (wr c) = word_start c.
+  Proof. intro c. unfold Lint.word_start. rewrite cp_wr. reflexivity. Qed.
+  Lemma word_char_wr : forall c, word_char (wr c) = word_char c.
+  Proof. intro c. unfold Lint.word_char. rewrite word_start_wr, cp_wr. reflexivity. Qed.
+  Lemma wc_wr : forall c, wc (wr c) = wc c.
+  Proof. intro c. unfold wc. rewrite is_quote_wr, word_char_wr. reflexivity. Qed.
+
+  Lemma sN_nil : sN [] = []. Proof. reflexivity. Qed.
+  Lemma sQ_nil : forall k, sQ k [] = []. Proof. reflexivity. Qed.
+  Lemma sN_quote : forall c t, is_quote c = true -> sN (c :: t) = wr c :: sQ (cp c) t.
+  Proof. intros c t H. cbn [l007_scan]. rewrite H. reflexivity. Qed.
+  Lemma sN_other : forall c t, is_quote c = false -> word_start c = false -> sN (c :: t) = wr c :: sN t.
+  Proof. intros c t H1 H2. cbn [l007_scan]. rewrite H1, H2. reflexivity. Qed.
+  Lemma sQ_cons : forall k c t, sQ k (c :: t) = wr c :: (if cp c =? k then sN t else sQ k t).
+  Proof. intros k c t. cbn [l007_scan]. destruct (cp c =? k); reflexivity. Qed.
+
+  Lemma absorb : forall t w, scan None (Some w) t = scan None (Some (rev (map wr (take_l wc t)) ++ w)) (trim_l wc t).
+  Proof.
+    induction t as [|c t IH]; intro w; [reflexivity|].
+    cbn [take_l trim_l]. destruct (wc c) eqn:E; [|reflexivity].
+    unfold wc in E. apply andb_prop in E. destruct E as [E1 E2]. apply negb_true_iff in E1.
+    cbn [l007_scan]. rewrite E1.
+    assert (C : word_start c || true && is_digit (cp c) = true) by exact E2. rewrite C.
+    rewrite IH. cbn [map rev]. rewrite <- app_assoc. reflexivity.
+  Qed.
+
+  Definition stops (r : list ch) : Prop := r = [] \/ exists d r', r = d :: r' /\ wc d = false.
+
+  Lemma boundary : forall w r, stops r -> scan None (Some w) r = conv_word (rev w) ++ sN r.
+  Proof.
+    intros w r [H|(d & r' & H & Hd)]; subst.
+    - cbn [l007_scan]. rewrite app_nil_r. reflexivity.
+    - cbn [l007_scan]. destruct (is_quote d) eqn:Eq; [reflexivity|].
+      unfold wc in Hd. rewrite Eq in Hd. cbn [negb andb] in Hd.
+      unfold Lint.word_char in Hd. apply orb_false_elim in Hd. destruct Hd as [H1 H2].
+      rewrite H1, H2. cbn [orb andb]. reflexivity.
+  Qed.
+
+  Lemma trim_l_stops : forall t, stops (trim_l wc t).
+  Proof.
+    intro t. destruct (trim_l wc t) as [|d r] eqn:E; [left; reflexivity|right].
+    exists d, r. split; [reflexivity|]. eapply trim_l_head. exact E.
+  Qed.
+
+  Lemma sN_word : forall c t, is_quote c = false -> word_start c = true ->
+    sN (c :: t) = conv_word (map wr (c :: take_l wc t)) ++ sN (trim_l wc t).
+  Proof.
+    intros c t H1 H2. cbn [l007_scan]. rewrite H1, H2. cbn [orb].
+    rewrite absorb. rewrite boundary by apply trim_l_stops.
+    rewrite rev_app_distr. rewrite rev_involutive. reflexivity.
+  Qed.
+
+  (* a complete word followed by a stop *)
+  Lemma sN_word_app : forall c v x, is_quote c = false -> word_start c = true -> forallb wc v = true -> stops x ->
+    sN (c :: v ++ x) = conv_word (map wr (c :: v)) ++ sN x.
+  Proof.
+    intros c v x H1 H2 Hv Hx. rewrite sN_word by assumption.
+    assert (E1 : take_l wc (v ++ x) = v).
+    { rewrite take_l_app_all by exact Hv. destruct Hx as [Hx|(d & r & Hx & Hd)]; subst; [rewrite app_nil_r; reflexivity|].
+      rewrite take_l_stop by exact Hd. rewrite app_nil_r. reflexivity. }
+    assert (E2 : trim_l wc (v ++ x) = x).
+    { rewrite trim_l_app_all by exact Hv. destruct Hx as [Hx|(d & r & Hx & Hd)]; subst; [reflexivity|].
+      apply trim_l_stop. exact Hd. }
+    rewrite E1, E2. reflexivity.
+  Qed.
+
+  (* the converted word *)
+  Lemma all_some_length : forall l u, all_some l = Some u -> length u = length l.
+  Proof.
+    induction l as [|[x|] l IH]; intros u H; cbn in H; [inversion H; reflexivity| |discriminate].
+    destruct (all_some l) as [r|]; [|discriminate]. inversion H; subst. cbn. f_equal. apply IH. reflexivity.
+  Qed.
+
+  Lemma all_some_in : forall l u y, all_some l = Some u -> In y u -> In (Some y) l.
+  Proof.
+    induction l as [|[x|] l IH]; intros u y H Hy; cbn in H; [inversion H; subst; destruct Hy| |discriminate].
+    destruct (all_some l) as [r|] eqn:E; [|discriminate]. inversion H; subst.
+    destruct Hy as [Hy|Hy]; [left; subst; reflexivity|right; eapply IH; [reflexivity|exact Hy]].
+  Qed.
+
+  Lemma all_some_map_idem : forall (w : list ch) u, all_some (map (fun c => upper_ascii (cp c)) w) = Some u ->
+    all_some (map (fun c => upper_ascii (cp c)) (map asc u)) = Some u.
+  Proof.
+    induction w as [|c w IH]; intros u H; cbn in H; [inversion H; reflexivity|].
+    destruct (upper_ascii (cp c)) as [x|] eqn:Ex; [|discriminate].
+    destruct (all_some (map (fun c0 => upper_ascii (cp c0)) w)) as [r|] eqn:Er; [|discriminate].
+    inversion H; subst. cbn. rewrite (up_idem _ _ Ex). rewrite (IH r eq_refl). reflexivity.
+  Qed.
+
+  Lemma kw_of_wr : forall w, kw_of (map wr w) = kw_of w.
+  Proof.
+    intro w. unfold Lint.kw_of. rewrite map_map.
+    replace (map (fun x => upper_ascii (cp (wr x))) w) with (map (fun c => upper_ascii (cp c)) w); [reflexivity|].
+    apply map_ext. intro c. rewrite cp_wr. reflexivity.
+  Qed.
+
+  Lemma kw_of_conv : forall w u, kw_of w = Some u -> kw_of (map asc u) = Some u.
+  Proof.
+    intros w u H. unfold Lint.kw_of in *.
+    destruct (all_some (map (fun c => upper_ascii (cp c)) w)) as [x|] eqn:E; [|discriminate].
+    destruct (existsb (list_eqb x) keywords) eqn:Ek; [|discriminate]. inversion H; subst.
+    rewrite (all_some_map_idem w u E). rewrite Ek. reflexivity.
+  Qed.
+
+  Lemma map_wr_asc : forall u, map wr (map asc u) = map asc u.
+  Proof. intro u. rewrite map_map. apply map_ext. intro b. reflexivity. Qed.
+
+  Lemma map_wr_wr : forall w, map wr (map wr w) = map wr w.
+  Proof. intro w. rewrite map_map. apply map_ext. intro c. apply wr_wr. Qed.
+
+  Lemma conv_idem : forall w, conv_word (map wr (conv_word (map wr w))) = conv_word (map wr w).
+  Proof.
+    intro w. unfold Lint.conv_word at 2 3. rewrite kw_of_wr. destruct (kw_of w) as [u|] eqn:E.
+    - rewrite map_wr_asc. unfold Lint.conv_word. rewrite (kw_of_conv w u E). reflexivity.
+    - rewrite map_wr_wr. unfold Lint.conv_word. rewrite kw_of_wr, E. reflexivity.
+  Qed.
+
+  Lemma kw_letters : forall w u y, kw_of w = Some u -> In y u -> exists x, upper_ascii x = Some y.
+  Proof.
+    intros w u y H Hy. unfold Lint.kw_of in H.
+    destruct (all_some (map (fun c => upper_ascii (cp c)) w)) as [x|] eqn:E; [|discriminate].
+    destruct (existsb (list_eqb x) keywords); [|discriminate]. inversion H; subst.
+    apply (all_some_in _ _ _ E) in Hy. apply in_map_iff in Hy. destruct Hy as (c & Hc & _). exists (cp c). exact Hc.
+  Qed.
+
+  Lemma asc_up_classes : forall x y, upper_ascii x = Some y ->
+    is_quote (asc y) = false /\ word_start (asc y) = true /\ wc (asc y) = true.
+  Proof.
+    intros x y H. destruct (up_noquote _ _ H) as (N1 & N2 & _). pose proof (up_letter _ _ H) as L.
+    assert (Q : is_quote (asc y) = false).
+    { unfold is_quote, asc. cbn [cp]. apply orb_false_intro; apply N.eqb_neq; assumption. }
+    assert (W : word_start (asc y) = true).
+    { unfold Lint.word_start, asc. cbn [cp]. rewrite L. reflexivity. }
+    split; [exact Q|]. split; [exact W|]. unfold wc. rewrite Q. unfold Lint.word_char. rewrite W. reflexivity.
+  Qed.
+
+  (* the converted word is again a word: first character starts a word, the others continue it *)
+  Lemma conv_shape : forall c v, is_quote c = false -> word_start c = true -> forallb wc v = true ->
+    exists c' v', conv_word (map wr (c :: v)) = c' :: v' /\ is_quote c' = false /\ word_start c' = true /\ forallb wc v' = true.
+  Proof.
+    intros c v H1 H2 Hv. unfold Lint.conv_word. rewrite kw_of_wr. destruct (kw_of (c :: v)) as [u|] eqn:E.
+    - assert (Hl : length u = length (c :: v)).
+      { unfold Lint.kw_of in E. destruct (all_some (map (fun c0 => upper_ascii (cp c0)) (c :: v))) as [x|] eqn:Ex; [|discriminate].
+        destruct (existsb (list_eqb x) keywords); [|discriminate]. inversion E; subst.
+        rewrite (all_some_length _ _ Ex). apply map_length. }
+      destruct u as [|y u]; [discriminate|]. exists (asc y), (map asc u). split; [reflexivity|].
+      destruct (kw_letters _ _ y E (or_introl eq_refl)) as (x & Hx).
+      destruct (asc_up_classes x y Hx) as (A1 & A2 & _). split; [exact A1|]. split; [exact A2|].
+      apply forallb_forall. intros z Hz. apply in_map_iff in Hz. destruct Hz as (b & Eb & Hb). subst.
+      destruct (kw_letters _ _ b E (or_intror Hb)) as (x' & Hx'). apply (asc_up_classes x' b Hx').
+    - exists (wr c), (map wr v). split; [reflexivity|]. rewrite is_quote_wr, word_start_wr. split; [exact H1|]. split; [exact H2|].
+      apply forallb_forall. intros z Hz. apply in_map_iff in Hz. destruct Hz as (b & Eb & Hb). subst. rewrite wc_wr.
+      rewrite forallb_forall in Hv. apply Hv. exact Hb.
+  Qed.
+
+  Lemma sN_stops : forall r, stops r -> stops (sN r).
+  Proof.
+    intros r [H|(d & r' & H & Hd)]; subst; [left; reflexivity|right].
+    destruct (is_quote d) eqn:Eq.
+    - rewrite sN_quote by exact Eq. eexists _, _. split; [reflexivity|]. rewrite wc_wr. exact Hd.
+    - assert (Hs : word_start d = false).
+      { unfold wc in Hd. rewrite Eq in Hd. cbn in Hd. unfold Lint.word_char in Hd. apply orb_false_elim in Hd. tauto. }
+      rewrite sN_other by assumption. eexists _, _. split; [reflexivity|]. rewrite wc_wr. exact Hd.
+  Qed.
+
+  Lemma l007_scan_idem_n : forall n l, (length l <= n)%nat ->
+    sN (sN l) = sN l /\ forall k, sQ k (sQ k l) = sQ k l.
+  Proof.
+    induction n as [|n IH]; intros l Hl.
+    - destruct l; [split; reflexivity|cbn in Hl; lia].
+    - destruct l as [|c t]; [split; reflexivity|]. cbn [length] in Hl.
+      assert (Ht : (length t <= n)%nat) by lia. destruct (IH t Ht) as [IHn IHq]. split.
+      + destruct (is_quote c) eqn:Eq.
+        * rewrite sN_quote by exact Eq. rewrite sN_quote by (rewrite is_quote_wr; exact Eq).
+          rewrite wr_wr, cp_wr, IHq. reflexivity.
+        * destruct (word_start c) eqn:Ew.
+          -- rewrite sN_word by assumption.
+             pose proof (take_l_all wc t) as Hv.
+             destruct (conv_shape c (take_l wc t) Eq Ew Hv) as (c' & v' & Ec & Q' & W' & V').
+             rewrite Ec. change ((c' :: v') ++ sN (trim_l wc t)) with (c' :: v' ++ sN (trim_l wc t)).
+             rewrite sN_word_app; [|exact Q'|exact W'|exact V'|apply sN_stops; apply trim_l_stops].
+             rewrite <- Ec. rewrite conv_idem.
+             assert (Hr : (length (trim_l wc t) <= n)%nat).
+             { pose proof (take_trim_l wc t) as E. apply (f_equal (@length ch)) in E. rewrite app_length in E. lia. }
+             destruct (IH _ Hr) as [IHr _]. rewrite IHr. rewrite Ec. reflexivity.
+          -- rewrite sN_other by assumption. rewrite sN_other by (rewrite ?is_quote_wr, ?word_start_wr; assumption).
+             rewrite wr_wr, IHn. reflexivity.
+      + intro k. rewrite sQ_cons. rewrite sQ_cons. rewrite wr_wr, cp_wr. destruct (cp c =? k); [rewrite IHn|rewrite IHq]; reflexivity.
+  Qed.
+
+  Lemma l007_line_idem : forall l, l007_fix_line is_letter is_digit upper_ascii keywords
+                                     (l007_fix_line is_letter is_digit upper_ascii keywords l)
+                                   = l007_fix_line is_letter is_digit upper_ascii keywords l.
+  Proof. intro l. unfold l007_fix_line. apply (l007_scan_idem_n (length l) l (le_n _)). Qed.
+
+  (* every output character is a rewritten input character or an upper-case image from the table *)
+  Definition up_img (x : ch) : Prop := exists b y, x = asc b /\ upper_ascii y = Some b.
+
+  Lemma conv_in : forall w x, In x (conv_word w) -> In x w \/ up_img x.
+  Proof.
+    intros w x H. unfold Lint.conv_word in H. destruct (kw_of w) as [u|] eqn:E; [|left; exact H].
+    right. apply in_map_iff in H. destruct H as (b & Eb & Hb).
+    destruct (kw_letters _ _ b E Hb) as (y & Hy). exists b, y. split; [symmetry; exact Eb|exact Hy].
+  Qed.
+
+  Lemma l007_scan_in : forall l q cur x, In x (scan q cur l) ->
+    (exists c, In c l /\ x = wr c) \/ up_img x \/ (exists w, cur = Some w /\ In x w).
+  Proof.
+    induction l as [|c t IH]; intros q cur x H.
+    - cbn [l007_scan] in H. destruct cur as [w|]; [|destruct H]. apply conv_in in H. destruct H as [H|H].
+      + right. right. exists w. split; [reflexivity|]. apply in_rev. exact H.
+      + right. left. exact H.
+    - assert (Gflush : In x (match cur with Some w => conv_word (rev w) | None => [] end) ->
+                       up_img x \/ (exists w, cur = Some w /\ In x w)).
+      { intro Hf. destruct cur as [w|]; [|destruct Hf]. apply conv_in in Hf. destruct Hf as [Hf|Hf]; [right|left; exact Hf].
+        exists w. split; [reflexivity|]. apply in_rev. exact Hf. }
+      assert (Gtail : forall q', In x (scan q' None t) -> (exists c0, In c0 (c :: t) /\ x = wr c0) \/ up_img x \/ (exists w, cur = Some w /\ In x w)).
+      { intros q' Hq. destruct (IH _ _ _ Hq) as [(d & Hd & E)|[Hb|(w & Hw & _)]]; [left; exists d; split; [right; exact Hd|exact E]|right; left; exact Hb|discriminate]. }
+      cbn [l007_scan] in H. destruct q as [k|].
+      + destruct H as [H|H]; [left; exists c; split; [left; reflexivity|symmetry; exact H]|].
+        destruct (IH _ _ _ H) as [(d & Hd & E)|[Hb|Hw]]; [left; exists d; split; [right; exact Hd|exact E]|right; left; exact Hb|right; right; exact Hw].
+      + destruct (is_quote c).
+        * apply in_app_or in H. destruct H as [H|[H|H]]; [right; apply Gflush; exact H|left; exists c; split; [left; reflexivity|symmetry; exact H]|apply (Gtail _ H)].
+        * destruct (word_start c || match cur with Some _ => true | None => false end && is_digit (cp c)).
+          -- destruct (IH _ _ _ H) as [(d & Hd & E)|[Hb|(w & Hw & Hx)]]; [left; exists d; split; [right; exact Hd|exact E]|right; left; exact Hb|].
+             inversion Hw; subst. destruct Hx as [Hx|Hx]; [left; exists c; split; [left; reflexivity|symmetry; exact Hx]|].
+             destruct cur as [w0|]; [right; right; exists w0; split; [reflexivity|exact Hx]|destruct Hx].
+          -- apply in_app_or in H. destruct H as [H|[H|H]]; [right; apply Gflush; exact H|left; exists c; split; [left; reflexivity|symmetry; exact H]|apply (Gtail _ H)].
+  Qed.
+
+  Lemma l007_line_keeps : forall l, no_nl l -> no_nl (l007_fix_line is_letter is_digit upper_ascii keywords l).
+  Proof.
+    intros l H x Hx. unfold l007_fix_line in Hx. apply l007_scan_in in Hx.
+    destruct Hx as [(c & Hc & E)|[(b & y & E & Hy)|(w & Hw & _)]]; [subst; apply is_nl_wr; apply H; exact Hc| |discriminate].
+    subst. unfold is_nl, asc. cbn [cp raw valid].
+    destruct (up_noquote _ _ Hy) as (_ & _ & N3). apply N.eqb_neq in N3. rewrite N3. reflexivity.
+  Qed.
+
+  Lemma l007_fix_idempotent_gen : forall t,
+    l007_fix is_letter is_digit upper_ascii keywords (l007_fix is_letter is_digit upper_ascii keywords t)
+    = l007_fix is_letter is_digit upper_ascii keywords t.
+  Proof.
+    intro t. unfold l007_fix. apply (per_line_idem (l007_fix_line is_letter is_digit upper_ascii keywords)).
+    - exact l007_line_keeps.
+    - intros l _. apply l007_line_idem.
+  Qed.
+End L007.
+
+(* ------------------------------------------------------------------------------------------------ *)
+(* L002: re-lint after fix *)
+
+Lemma l002_fixed_leading : forall l, existsb is_tab (leading_ws (l002_fix_line l)) = false.
+Proof.
+  intro l. rewrite l002_line_shape. unfold leading_ws.
+  set (X := flat_map tab4 (take_l is_blank l)).
+  assert (HX : forallb is_blank X = true).
+  { apply forallb_flat_map. intros x Hx. apply tab4_blank.
+    pose proof (take_l_all is_blank l) as H. rewrite forallb_forall in H. apply H. exact Hx. }
+  rewrite take_l_app_all by exact HX. rewrite take_l_of_trim_l. rewrite app_nil_r.
+  assert (HT : forallb (fun d => negb (is_tab d)) X = true) by (apply forallb_flat_map; intros x _; apply tab4_notab).
+  clear -HT. induction X as [|c X IH]; [reflexivity|]. cbn in *. apply andb_prop in HT. destruct HT as [H1 H2].
+  apply negb_true_iff in H1. rewrite H1. apply IH. exact H2.
+Qed.
+
+Lemma l002_check_notab : forall ls first n, (first = 0 \/ first = 2) ->
+  (forall l, In l ls -> existsb is_tab (leading_ws l) = false) -> l002_check_lines first n ls = [].
+Proof.
+  induction ls as [|l r IH]; intros first n Hf H; [reflexivity|].
+  cbn [l002_check_lines].
+  assert (Hr : forall l0, In l0 r -> existsb is_tab (leading_ws l0) = false) by (intros l0 Hl0; apply H; right; exact Hl0).
+  destruct (leading_ws l) as [|c lw] eqn:E; [apply IH; assumption|].
+  rewrite <- E. rewrite (H l (or_introl eq_refl)). cbn [andb].
+  destruct Hf as [Hf|Hf]; subst; cbn [N.eqb]; apply IH; auto.
+Qed.
+
+Lemma l002_fix_clears : forall t, l002_check (l002_fix t) = [].
+Proof.
+  intro t. unfold l002_check. change (l002_fix t) with (per_line l002_fix_line t).
+  rewrite split_per_line by exact l002_line_keeps.
+  apply l002_check_notab; [left; reflexivity|].
+  intros l Hl. apply in_map_iff in Hl. destruct Hl as (l0 & E & _). subst. apply l002_fixed_leading.
+Qed.
+
+(* ------------------------------------------------------------------------------------------------ *)
+(* L005: exact flagging and location *)
+
+Lemma l005_check_exact : forall is_space mx t n col,
+  In (n, col) (l005_check is_space mx t) <->
+  exists l, nth_error (split_nl t) (n - 1) = Some l /\ (1 <= n)%nat /\ l <> [] /\
+            (starts2 45 45 (trim_space is_space l) || starts2 47 42 (trim_space is_space l)) = false /\
+            (mx < blen l)%nat /\ col = S mx.
+Proof.
+  intros is_space mx t n col. unfold l005_check. rewrite on_lines_in. split.
+  - intros (i & l & Hn & Hin). unfold l005_check_line in Hin. destruct l as [|c l]; [destruct Hin|].
+    destruct (starts2 45 45 (trim_space is_space (c :: l)) || starts2 47 42 (trim_space is_space (c :: l))) eqn:Ec; [destruct Hin|].
+    destruct (mx <? blen (c :: l))%nat eqn:El; [|destruct Hin]. destruct Hin as [Hin|[]]. inversion Hin; subst.
+    exists (c :: l). replace (S i - 1)%nat with i by lia. split; [exact Hn|]. split; [lia|]. split; [discriminate|].
+    split; [exact Ec|]. split; [apply Nat.ltb_lt; exact El|reflexivity].
+  - intros (l & Hn & H1 & Hne & Hc & Hl & E). exists (n - 1)%nat, l. split; [exact Hn|].
+    unfold l005_check_line. destruct l as [|c l]; [contradiction|]. rewrite Hc.
+    replace (mx <? blen (c :: l))%nat with true by (symmetry; apply Nat.ltb_lt; exact Hl).
+    left. subst col. replace (1 + (n - 1))%nat with n by lia. reflexivity.
+Qed.
+
+(* ------------------------------------------------------------------------------------------------ *)
+(* conservation: the whitespace rules change only whitespace *)
+
+Section Conservation.
+  Variable is_space : N -> bool.
+
+  (* whitespace: a Unicode space, the blanks of the cut set " \t", or the newline *)
+  Definition wsc (c : ch) : bool := spacec is_space c || is_blank c || is_nl c.
+  Definition ink (t : list ch) : list N := map cp (filter (fun c => negb (wsc c)) t).   (* the "ink" of a text *)
+
+  Lemma ink_app : forall a b, ink (a ++ b) = ink a ++ ink b.
+  Proof. intros a b. unfold ink. rewrite filter_app, map_app. reflexivity. Qed.
+
+  Lemma ink_ws : forall a, forallb wsc a = true -> ink a = [].
+  Proof.
+    induction a as [|c a IH]; intro H; [reflexivity|]. cbn in H. apply andb_prop in H. destruct H as [H1 H2].
+    unfold ink. cbn [filter]. rewrite H1. cbn [negb]. apply IH. exact H2.
+  Qed.
+
+  Lemma wsc_nlc : wsc nlc = true.
+  Proof. unfold wsc. rewrite is_nl_nlc. rewrite orb_true_r. reflexivity. Qed.
+
+  Lemma ink_join : forall ls, ink (join_nl ls) = flat_map ink ls.
+  Proof.
+    induction ls as [|x r IH]; [reflexivity|]. destruct r as [|y r].
+    - cbn. rewrite app_nil_r. reflexivity.
+    - rewrite join_cons2. rewrite ink_app. cbn [flat_map]. f_equal.
+      change (nlc :: join_nl (y :: r)) with ([nlc] ++ join_nl (y :: r)). rewrite ink_app.
+      rewrite (ink_ws [nlc]) by (cbn; rewrite wsc_nlc; reflexivity). exact IH.
+  Qed.
+
+  Lemma ink_per_line : forall f t, (forall l, ink (f l) = ink l) -> ink (per_line f t) = ink t.
+  Proof.
+    intros f t H. unfold per_line. rewrite ink_join. rewrite <- (join_split t) at 2. rewrite ink_join.
+    induction (split_nl t) as [|l r IH]; [reflexivity|]. cbn [map flat_map]. rewrite H, IH. reflexivity.
+  Qed.
+
+  Lemma blank_wsc : forall c, is_blank c = true -> wsc c = true.
+  Proof. intros c H. unfold wsc. rewrite H. rewrite orb_true_r. reflexivity. Qed.
+
+  Lemma ink_trim_r_blank : forall l, ink (trim_r is_blank l) = ink l.
+  Proof.
+    induction l as [|c t IH]; [reflexivity|]. rewrite trim_r_cons. destruct (trim_r is_blank t) as [|a r] eqn:E.
+    - change (c :: t) with ([c] ++ t). rewrite ink_app. rewrite <- IH. cbn [ink filter map app]. rewrite app_nil_r.
+      destruct (is_blank c) eqn:Eb; [|reflexivity]. unfold ink. cbn [filter]. rewrite (blank_wsc c Eb). reflexivity.
+    - change (c :: a :: r) with ([c] ++ a :: r). change (c :: t) with ([c] ++ t). rewrite !ink_app. rewrite IH. reflexivity.
+  Qed.
+
+  Theorem l001_ws_only : forall t, ink (l001_fix t) = ink t.
+  Proof. intro t. rewrite l001_fix_per_line. apply ink_per_line. exact ink_trim_r_blank. Qed.
+
+  Lemma ink_blanks : forall a, forallb is_blank a = true -> ink a = [].
+  Proof.
+    intros a H. apply ink_ws. apply forallb_forall. intros x Hx. apply blank_wsc. rewrite forallb_forall in H. apply H. exact Hx.
+  Qed.
+
+  Theorem l002_ws_only : forall t, ink (l002_fix t) = ink t.
+  Proof.
+    intro t. change (l002_fix t) with (per_line l002_fix_line t). apply ink_per_line. intro l.
+    rewrite l002_line_shape. rewrite <- (take_trim_l is_blank l) at 3. rewrite !ink_app. f_equal.
+    rewrite (ink_blanks (take_l is_blank l)) by apply take_l_all. apply ink_blanks.
+    apply forallb_flat_map. intros x Hx. apply tab4_blank.
+    pose proof (take_l_all is_blank l) as H. rewrite forallb_forall in H. apply H. exact Hx.
+  Qed.
+
+  (* L010: only spaces are dropped; an undecodable byte is rewritten as U+FFFD (same code point) *)
+  Lemma wsc_wr : forall c, is_nl c = false -> wsc (wr c) = wsc c.
+  Proof.
+    intros c H. unfold wsc, spacec. rewrite cp_wr, is_blank_wr. rewrite H, (is_nl_wr c H). reflexivity.
+  Qed.
+
+  Lemma ink_wr : forall c, is_nl c = false -> ink [wr c] = ink [c].
+  Proof. intros c H. unfold ink. cbn [filter]. rewrite (wsc_wr c H). destruct (wsc c); cbn; [reflexivity|rewrite cp_wr; reflexivity]. Qed.
+
+  Lemma ink_cons : forall c t, ink (c :: t) = ink [c] ++ ink t.
+  Proof. intros c t. change (c :: t) with ([c] ++ t). apply ink_app. Qed.
+
+  Lemma ink_l010_scan : forall l q ps, no_nl l -> ink (l010_scan q ps l) = ink l.
+  Proof.
+    induction l as [|c t IH]; intros q ps H; [reflexivity|].
+    assert (Hc : is_nl c = false) by (apply H; left; reflexivity).
+    assert (Ht : no_nl t) by (intros x Hx; apply H; right; exact Hx).
+    rewrite (ink_cons c t). cbn [l010_scan]. destruct q as [k|].
+    - rewrite ink_cons, ink_wr, IH by assumption. reflexivity.
+    - destruct (is_quote c); [rewrite ink_cons, ink_wr, IH by assumption; reflexivity|].
+      destruct (is_sp c) eqn:Es.
+      + assert (Hw : ink [c] = []) by (apply ink_ws; cbn; unfold wsc, is_blank; rewrite Es; rewrite orb_true_r; reflexivity).
+        rewrite Hw. destruct ps; cbn [app]; [apply IH; exact Ht|].
+        rewrite ink_cons, ink_wr, Hw, IH by assumption. reflexivity.
+      + rewrite ink_cons, ink_wr, IH by assumption. reflexivity.
+  Qed.
+
+  Theorem l010_ws_only : forall t, ink (l010_fix t) = ink t.
+  Proof.
+    intro t. change (l010_fix t) with (per_line l010_fix_line t).
+    unfold per_line. rewrite ink_join. rewrite <- (join_split t) at 2. rewrite ink_join.
+    pose proof (split_no_nl t) as Hall. induction Hall as [|l r Hl Hr IH]; [reflexivity|].
+    cbn [map flat_map]. rewrite IH. f_equal. unfold l010_fix_line.
+    destruct (trim_l is_blank l) as [|c rest] eqn:E.
+    - apply ink_l010_scan. exact Hl.
+    - rewrite ink_app. rewrite ink_l010_scan.
+      + rewrite <- E. rewrite <- ink_app. rewrite take_trim_l. reflexivity.
+      + intros x Hx. apply Hl. eapply trim_l_incl. rewrite E. exact Hx.
+  Qed.
+
+  (* L003: only blank lines are dropped *)
+  Lemma trim_space_nil_ws : forall l, trim_space is_space l = [] -> forallb wsc l = true.
+  Proof.
+    intros l H. unfold trim_space in H. apply trim_r_nil_iff in H.
+    rewrite <- (take_trim_l (spacec is_space) l). rewrite forallb_app. apply andb_true_intro. split.
+    - apply forallb_forall. intros x Hx. pose proof (take_l_all (spacec is_space) l) as Ht. rewrite forallb_forall in Ht.
+      unfold wsc. rewrite (Ht x Hx). reflexivity.
+    - apply forallb_forall. intros x Hx. rewrite forallb_forall in H. unfold wsc. rewrite (H x Hx). reflexivity.
+  Qed.
+
+  Lemma ink_blank_line : forall l, blank_line is_space l = true -> ink l = [].
+  Proof.
+    intros l H. apply ink_ws. apply trim_space_nil_ws. unfold blank_line in H.
+    destruct (trim_space is_space l); [reflexivity|discriminate].
+  Qed.
+
+  Lemma ink_pass : forall mx ls cnt, flat_map ink (l003_pass is_space mx cnt ls) = flat_map ink ls.
+  Proof.
+    intros mx. induction ls as [|l r IH]; intro cnt; [reflexivity|]. cbn [l003_pass].
+    destruct (blank_line is_space l) eqn:Eb.
+    - destruct (S cnt <=? mx)%nat; cbn [flat_map]; rewrite IH; [reflexivity|].
+      rewrite (ink_blank_line l Eb). reflexivity.
+    - cbn [flat_map]. rewrite IH. reflexivity.
+  Qed.
+
+  Theorem l003_ws_only : forall mx t, ink (l003_fix_mx is_space mx t) = ink t.
+  Proof.
+    intros mx t. unfold l003_fix_mx. fold (l003_lines is_space mx (split_nl t)). rewrite l003_lines_eq.
+    rewrite ink_join. rewrite ink_pass. rewrite <- ink_join. rewrite join_split. reflexivity.
+  Qed.
+End Conservation.
+
+(* ------------------------------------------------------------------------------------------------ *)
+(* conservation: the keyword rule changes only letter case *)
+
+Section CaseOnly.
+  Variables is_letter is_digit : N -> bool.
+  Variable upper_ascii : N -> option N.
+  Variable keywords : list (list N).
+  Hypothesis up_idem : forall x u, upper_ascii x = Some u -> upper_ascii u = Some u.
+
+  (* case folding: a rune with an ASCII upper-case image is identified with that image *)
+  Definition fold (c : ch) : N := match upper_ascii (cp c) with Some u => u | None => cp c end.
+
+  Lemma fold_wr : forall c, fold (wr c) = fold c.
+  Proof. intro c. unfold fold. rewrite cp_wr. reflexivity. Qed.
+
+  Lemma fold_conv : forall w, map fold (conv_word upper_ascii keywords w) = map fold w.
+  Proof.
+    intro w. unfold conv_word, kw_of.
+    destruct (all_some (map (fun c => upper_ascii (cp c)) w)) as [u|] eqn:E; [|reflexivity].
+    destruct (existsb (list_eqb u) keywords); [|reflexivity].
+    revert u E. induction w as [|c w IH]; intros u E; cbn in E; [inversion E; reflexivity|].
+    destruct (upper_ascii (cp c)) as [x|] eqn:Ex; [|discriminate].
+    destruct (all_some (map (fun c0 => upper_ascii (cp c0)) w)) as [r|] eqn:Er; [|discriminate].
+    inversion E; subst. cbn [map]. f_equal; [|apply IH; reflexivity].
+    unfold fold, asc. cbn [cp]. rewrite (up_idem _ _ Ex), Ex. reflexivity.
+  Qed.
+
+  Lemma fold_scan : forall l,
+    (forall k, map fold (l007_scan is_letter is_digit upper_ascii keywords (Some k) None l) = map fold l) /\
+    (forall cur, map fold (l007_scan is_letter is_digit upper_ascii keywords None cur l)
+                 = map fold (match cur with Some w => rev w | None => [] end ++ l)).
+  Proof.
+    induction l as [|c t [IHq IHn]]; split.
+    - reflexivity.
+    - intro cur. cbn [l007_scan]. destruct cur as [w|]; [rewrite fold_conv, app_nil_r; reflexivity|reflexivity].
+    - intro k. cbn [l007_scan map]. rewrite fold_wr. f_equal. destruct (cp c =? k); [rewrite IHn; reflexivity|apply IHq].
+    - intro cur. cbn [l007_scan].
+      assert (Fl : map fold (match cur with Some w => conv_word upper_ascii keywords (rev w) | None => [] end)
+                   = map fold (match cur with Some w => rev w | None => [] end)).
+      { destruct cur; [apply fold_conv|reflexivity]. }
+      destruct (is_quote c).
+      + rewrite !map_app. rewrite Fl. cbn [map]. rewrite fold_wr, IHq. reflexivity.
+      + destruct (word_start is_letter c || match cur with Some _ => true | None => false end && is_digit (cp c)).
+        * rewrite IHn. cbn [rev]. destruct cur as [w|]; cbn [rev app]; rewrite ?map_app; cbn [map]; rewrite ?fold_wr; rewrite <- ?app_assoc; reflexivity.
+        * rewrite !map_app. rewrite Fl. cbn [map]. rewrite fold_wr, IHn. reflexivity.
+  Qed.
+
+  Lemma map_join_congr : forall (g : ch -> N) f ls, (forall l, map g (f l) = map g l) ->
+    map g (join_nl (map f ls)) = map g (join_nl ls).
+  Proof.
+    intros g f ls H. induction ls as [|x r IH]; [reflexivity|]. destruct r as [|y r].
+    - cbn. apply H.
+    - cbn [map]. rewrite !join_cons2. rewrite !map_app. cbn [map]. rewrite H. f_equal. f_equal. exact IH.
+  Qed.
+
+  Theorem l007_case_only : forall t,
+    map fold (l007_fix is_letter is_digit upper_ascii keywords t) = map fold t.
+  Proof.
+    intro t. unfold l007_fix. rewrite map_join_congr.
+    - rewrite join_split. reflexivity.
+    - intro l. unfold l007_fix_line. destruct (fold_scan l) as [_ H]. rewrite (H None). reflexivity.
+  Qed.
+End CaseOnly.
+
+(* ------------------------------------------------------------------------------------------------ *)
+(* table lookups *)
+
+Lemma assoc_in : forall m x v, assoc m x = Some v -> In (x, v) m.
+Proof.
+  induction m as [|[k w] m IH]; intros x v H; [discriminate|]. cbn [assoc] in H.
+  destruct (k =? x) eqn:E; [apply N.eqb_eq in E; inversion H; subst; left; reflexivity|right; apply IH; exact H].
+Qed.
